@@ -1,5 +1,7 @@
 package object
 
+import "strconv"
+
 // C10 (object part) — parsing an extended ID into an object and printing it returns the
 // same five numbers in the same positions.
 
@@ -18,5 +20,27 @@ func VerifC10Object() {
 	vAssert(len(p) == 5 && p[0] == h && p[1] == x && p[2] == y && p[3] == v && p[4] == f, "FieldParams lists hZoom,x,y,vZoom,z")
 	var o2 ExtendedSpatialID
 	vAssert(o2.ResetExtendedSpatialID(id) == nil && o2.ID() == id, "Reset + ID round trip")
+	vReach("end")
+}
+
+// VerifC10ObjectText: an arbitrary 5-field text.  When the parser accepts it, every field is a decimal
+// integer and the object holds exactly those numbers in their positions (the notation is decimal: a text
+// such as "0x12" is not a number of it, and "010" is ten).
+func VerifC10ObjectText() {
+	s := vNondetStringN("s", 5)
+	fs := vSplit(s)
+	vAssume(len(fs) == 5)
+	o, err := NewExtendedSpatialID(s)
+	if err == nil {
+		p := o.FieldParams()
+		ok := len(p) == 5
+		for i := 0; i < 5 && ok; i++ {
+			v, e := strconv.ParseInt(fs[i], 10, 64)
+			if e != nil || p[i] != v {
+				ok = false
+			}
+		}
+		vAssert(ok, "an accepted text has five decimal fields and the object holds their values")
+	}
 	vReach("end")
 }
